@@ -13,7 +13,7 @@ Local Open Scope string_scope.
 
 (** what the harness reports: ok with the count the sub-target defines, an error / Invalid condition,
     or a panic with the first function of package-operator (or boxcutter) on the stack *)
-Inductive obs := ObsOk (n : N) | ObsErr | ObsPanic (f : string).
+Inductive obs := ObsOk (n : N) | ObsErr | ObsPanic (f : string) | ObsRunaway.
 
 Inductive scen :=
 | ScCollector (phases : list string) (objs : list pobj)
@@ -22,6 +22,8 @@ Inductive scen :=
 | ScTemplateSource (destination : string)
 | ScOCI (evs : list tar_event)
 | ScOwnerAnno (teardown : bool) (desired : anno_state) (actual : option anno_state)
+| ScInclude (names : N) (deepest : N)   (* a template over [names] helpers; [deepest]: the deepest nesting of helper
+                                           bodies the harness counted during the render (part of the observation) *)
 | ScOpaque.
 
 Definition case := (scen * obs)%type.
@@ -47,6 +49,7 @@ Definition model (sc : scen) : option (outcome N) :=
   | ScTemplateSource d => Some (bind (source_item d) (fun _ => Ok 1%N))
   | ScOCI evs => Some (from_oci evs 0)
   | ScOwnerAnno teardown desired actual => Some (bind (phase_owner_reads teardown desired actual) (fun _ => Ok 0%N))
+  | ScInclude _ _ => None
   | ScOpaque => None
   end.
 
@@ -91,8 +94,16 @@ Definition agree (c : case) : bool :=
               end
   end.
 
-(** the property, on the implementation's observation only: it did not panic *)
-Definition monitor (c : case) : bool := match snd c with ObsPanic _ => false | _ => true end.
+(** the nesting bound of the include guard (theorem include_depth_bounded) on an observed depth *)
+Definition include_bound_ok (names deepest : N) : bool := (deepest <=? N.of_nat (S include_limit) * names)%N.
+
+(** the property, on the implementation's observation only: it did not panic, and a render did not nest
+    includes beyond the guard's bound (nor run away past the harness' depth tick) *)
+Definition monitor (c : case) : bool :=
+  match snd c with
+  | ObsPanic _ | ObsRunaway => false
+  | _ => match fst c with ScInclude names deepest => include_bound_ok names deepest | _ => true end
+  end.
 
 Definition judge (c : case) : bool * bool := (agree c, monitor c).
 
@@ -105,8 +116,8 @@ Definition wellformed (sc : scen) : bool :=
   | _ => true
   end.
 
-Lemma monitor_obs_of x sc : is_panic x = false -> monitor (sc, obs_of x) = true.
-Proof. destruct x; cbn; [reflexivity|reflexivity|discriminate]. Qed.
+Lemma monitor_obs_of x sc : (forall n d, sc <> ScInclude n d) -> is_panic x = false -> monitor (sc, obs_of x) = true.
+Proof. intros Hsc. destruct x; cbn; try discriminate; intros _; destruct sc; try reflexivity; exfalso; eapply Hsc; reflexivity. Qed.
 
 Lemma not_panic_is_panic {A} (x : outcome A) : (forall s, x <> Panic s) -> is_panic x = false.
 Proof. destruct x as [a| |s]; intros H; try reflexivity. exfalso. now apply (H s). Qed.
@@ -122,8 +133,8 @@ Proof. destruct x; cbn; intros H; try discriminate. now injection H as ->. Qed.
     without any hypothesis, for the owner strategy on well-formed annotations. *)
 Theorem monitor_sound : forall sc x, wellformed sc = true -> model sc = Some x -> monitor (sc, obs_of x) = true.
 Proof.
-  intros sc x Hw Hm. apply monitor_obs_of. apply not_panic_is_panic. intros s H.
-  destruct sc as [phases objs|mappings obj|gen obj|d|evs|teardown desired actual|];
+  intros sc x Hw Hm. apply monitor_obs_of; [intros n d ->; discriminate|]. apply not_panic_is_panic. intros s H.
+  destruct sc as [phases objs|mappings obj|gen obj|d|evs|teardown desired actual|names deepest|];
     cbn in Hm; try discriminate; injection Hm as <-.
   - now apply collector_total in H.
   - apply count_panic in H. now apply map_conditions_total in H.
@@ -135,4 +146,18 @@ Proof.
     apply owner_annotation_partial in H as [_ [[-> Hd]|(a & -> & Ha)]]; cbn in Hw.
     + rewrite Hd in Hw. discriminate.
     + rewrite Ha in Hw. now rewrite andb_false_r in Hw.
+Qed.
+
+(** the monitor's nesting bound is the one the guard model guarantees: for every sequence of includes and
+    returns over a duplicate-free list of helper names, the depth of the model's run satisfies it *)
+Theorem include_monitor_sound : forall names ops,
+  NoDup names -> (forall n, In (Enter n) ops -> In n names) ->
+  forall o, o <> ObsRunaway -> (forall f, o <> ObsPanic f) ->
+  monitor (ScInclude (N.of_nat (List.length names)) (N.of_nat (depth (grun Decrement include_limit ops g_init))), o) = true.
+Proof.
+  intros names ops Hnd Hops o Hr Hp. unfold monitor. cbn [fst snd].
+  pose proof (include_depth_bounded include_limit names ops Hnd Hops) as B.
+  assert (E : include_bound_ok (N.of_nat (List.length names)) (N.of_nat (depth (grun Decrement include_limit ops g_init))) = true).
+  { unfold include_bound_ok. apply N.leb_le. rewrite <- Nat2N.inj_mul. lia. }
+  destruct o; try exact E; [exfalso; eapply Hp; reflexivity|congruence].
 Qed.
